@@ -108,4 +108,7 @@ VARIANTS += [
                      new="            created = False\n            try:\n                open_flags = os.O_CREAT | os.O_EXCL | os.O_WRONLY\n                os.close(os.open(self._lock_file, open_flags))\n                created = True\n                return True\n"),
                 dict(file=JF, count=2, old="            except BaseException:\n                self.release()\n                raise\n",
                      new="            except BaseException:\n                if created:\n                    self.release()\n                raise\n")]),
+    dict(id="c05-remembered-mtime-reset-in-loop", prop="C05", file=JF, expect="R05.10", count=2,
+         old="                    if self.grace_period is not None:\n                        try:\n                            current_mtime = os.",
+         new="                    mtime = None\n                    if self.grace_period is not None:\n                        try:\n                            current_mtime = os."),
 ]
